@@ -34,6 +34,8 @@ pub struct Conn {
     /// sha-256 of the leaf certificate the server presented, negotiated ALPN
     pub tls_peer_cert: Option<String>,
     pub tls_alpn: Option<String>,
+    /// every application byte handed to the transport, in order (debugging aid)
+    pub sent_log: Vec<u8>,
 }
 
 impl Conn {
@@ -41,10 +43,10 @@ impl Conn {
         stream.set_nonblocking(true).ok();
         stream.set_nodelay(true).ok();
         let local = stream.local_addr().ok();
-        Conn { stream: Some(stream), rx: vec![], eof: false, reset: false, tx: vec![], sent: 0, first_rx_ns: None, last_rx_ns: None, eof_ns: None, local, tls: None, raw_tx: vec![], tls_error: None, tls_peer_cert: None, tls_alpn: None }
+        Conn { stream: Some(stream), rx: vec![], eof: false, reset: false, tx: vec![], sent: 0, first_rx_ns: None, last_rx_ns: None, eof_ns: None, local, tls: None, raw_tx: vec![], tls_error: None, tls_peer_cert: None, tls_alpn: None, sent_log: vec![] }
     }
     pub fn closed() -> Conn {
-        Conn { stream: None, rx: vec![], eof: true, reset: false, tx: vec![], sent: 0, first_rx_ns: None, last_rx_ns: None, eof_ns: None, local: None, tls: None, raw_tx: vec![], tls_error: None, tls_peer_cert: None, tls_alpn: None }
+        Conn { stream: None, rx: vec![], eof: true, reset: false, tx: vec![], sent: 0, first_rx_ns: None, last_rx_ns: None, eof_ns: None, local: None, tls: None, raw_tx: vec![], tls_error: None, tls_peer_cert: None, tls_alpn: None, sent_log: vec![] }
     }
     /// read whatever is available; true if anything new was observed
     pub fn pump_read(&mut self, now: u64) -> bool {
@@ -153,6 +155,7 @@ impl Conn {
         let mut progressed = false;
         if !self.tx.is_empty() && !tls.is_handshaking() {
             if let Ok(n) = tls.writer().write(&self.tx) {
+                self.sent_log.extend_from_slice(&self.tx[..n]);
                 self.tx.drain(..n);
                 self.sent += n;
                 progressed |= n > 0;
@@ -260,6 +263,20 @@ pub enum Step {
     ExpectBytes(usize),
     /// wait until `n` complete HTTP/1.1 messages have been received in total
     ExpectH1 { count: usize, responses: bool },
+    /// start speaking HTTP/2 on the connection (client: preface + SETTINGS; server: SETTINGS)
+    H2Start { settings: Vec<(u16, u32)>, policy: super::h2::WindowPolicy },
+    H2Headers { stream: u32, headers: Vec<(String, String)>, end_stream: bool, continuation_at: Option<usize> },
+    /// DATA for the whole of `bytes`, in frames of at most `frame_size`, sent as
+    /// far as the peer's windows allow (waits for WINDOW_UPDATE) unless `ignore_window`
+    H2Data { stream: u32, bytes: Vec<u8>, end_stream: bool, frame_size: usize, ignore_window: bool },
+    /// arbitrary bytes on the HTTP/2 connection (malformed frames, floods)
+    H2Raw(Vec<u8>),
+    /// WINDOW_UPDATE that really extends what we accept
+    H2Grant { stream: u32, inc: u32 },
+    H2Await(H2Cond),
+    /// server: answer every complete request (`/size/<n>` gives an n-byte body, else 2 bytes);
+    /// never finishes, counts as settled
+    H2Serve,
     /// client: start a TLS session on the connection (SNI, ALPN offer)
     StartTls { sni: String, alpn: Vec<String> },
     /// wait until the TLS handshake completed or failed
@@ -281,6 +298,19 @@ pub enum Step {
     Done,
 }
 
+/// What an HTTP/2 script waits for (it also gives up when the connection ends).
+#[derive(Clone, Debug, PartialEq, Eq)]
+pub enum H2Cond {
+    PeerSettings,
+    SettingsAcked,
+    Headers(u32),
+    BodyAtLeast(u32, usize),
+    StreamDone(u32),
+    AllDone(Vec<u32>),
+    Goaway,
+    PingAcks(usize),
+}
+
 pub struct Peer {
     pub name: String,
     pub listener: Option<TcpListener>,
@@ -297,19 +327,81 @@ pub struct Peer {
     /// further connections accepted by `ServeH1`
     pub more: Vec<Conn>,
     served: Vec<usize>,
+    /// HTTP/2 endpoint state of the main connection
+    pub h2: Option<Box<super::h2::Endpoint>>,
+    h2_data_off: usize,
+    /// H2Serve: streams already answered, and response bodies still to send (stream, bytes, offset)
+    h2_answered: std::collections::BTreeSet<u32>,
+    h2_pending: Vec<(u32, Vec<u8>, usize)>,
+    /// H2Serve: further accepted connections
+    pub h2_more: Vec<H2ServerConn>,
+}
+
+pub struct H2ServerConn {
+    pub conn: Conn,
+    pub h2: Box<super::h2::Endpoint>,
+    answered: std::collections::BTreeSet<u32>,
+    pending: Vec<(u32, Vec<u8>, usize)>,
+}
+
+/// one round of the HTTP/2 auto-responder on one connection
+fn h2_serve(conn: &mut Conn, h2: &mut super::h2::Endpoint, answered: &mut std::collections::BTreeSet<u32>, pending: &mut Vec<(u32, Vec<u8>, usize)>, now: u64) -> bool {
+    let mut progressed = conn.pump_read(now);
+    let auto = h2.receive(&conn.rx, now);
+    conn.tx.extend_from_slice(&auto);
+    let ready: Vec<u32> = h2.streams.iter().filter(|(id, st)| st.end_stream && !st.headers.is_empty() && !answered.contains(id)).map(|(id, _)| *id).collect();
+    for id in ready {
+        answered.insert(id);
+        let path = h2.streams[&id].header(":path").unwrap_or("/").to_owned();
+        let size = path.strip_prefix("/size/").and_then(|n| n.parse::<usize>().ok());
+        let body = match size {
+            Some(n) => super::h1::coded_body((n % 251) as u8, n),
+            None => b"ok".to_vec(),
+        };
+        let len = body.len().to_string();
+        let sid = id.to_string();
+        let hs = h2.encode_headers(id, &[(":status", "200"), ("content-length", &len), ("x-stream", &sid)], body.is_empty(), None);
+        conn.tx.extend_from_slice(&hs);
+        if !body.is_empty() {
+            pending.push((id, body, 0));
+        }
+        progressed = true;
+    }
+    let max = h2.peer(super::h2::S_MAX_FRAME_SIZE, 16384) as usize;
+    for (id, body, off) in pending.iter_mut() {
+        if h2.streams.get(id).is_some_and(|s| s.rst.is_some()) {
+            *off = body.len();
+            continue;
+        }
+        loop {
+            let left = body.len() - *off;
+            let n = left.min(max).min(h2.sendable(*id));
+            if n == 0 {
+                break;
+            }
+            let last = *off + n == body.len();
+            conn.tx.extend_from_slice(&super::h2::data(*id, &body[*off..*off + n], last));
+            h2.consume_send_window(*id, n);
+            *off += n;
+            progressed = true;
+        }
+    }
+    pending.retain(|(_, b, o)| *o < b.len());
+    progressed |= conn.pump_write();
+    progressed
 }
 
 impl Peer {
     pub fn client(name: &str, script: Vec<Step>) -> Peer {
-        Peer { name: name.into(), listener: None, conn: Conn::closed(), script, pc: 0, wake_ns: None, deferred: None, deferred_turn: false, connect_failed: false, accepted_from: None, h1_seen: 0, more: vec![], served: vec![] }
+        Peer { name: name.into(), listener: None, conn: Conn::closed(), script, pc: 0, wake_ns: None, deferred: None, deferred_turn: false, connect_failed: false, accepted_from: None, h1_seen: 0, more: vec![], served: vec![], h2: None, h2_data_off: 0, h2_answered: Default::default(), h2_pending: vec![], h2_more: vec![] }
     }
     pub fn server(name: &str, listen: SocketAddr, script: Vec<Step>) -> Peer {
         let l = bind_reuse(listen);
         l.set_nonblocking(true).ok();
-        Peer { name: name.into(), listener: Some(l), conn: Conn::closed(), script, pc: 0, wake_ns: None, deferred: None, deferred_turn: false, connect_failed: false, accepted_from: None, h1_seen: 0, more: vec![], served: vec![] }
+        Peer { name: name.into(), listener: Some(l), conn: Conn::closed(), script, pc: 0, wake_ns: None, deferred: None, deferred_turn: false, connect_failed: false, accepted_from: None, h1_seen: 0, more: vec![], served: vec![], h2: None, h2_data_off: 0, h2_answered: Default::default(), h2_pending: vec![], h2_more: vec![] }
     }
     pub fn done(&self) -> bool {
-        self.pc >= self.script.len() || matches!(self.script.get(self.pc), Some(Step::Done) | Some(Step::Stall) | Some(Step::ServeH1 { .. }))
+        self.pc >= self.script.len() || matches!(self.script.get(self.pc), Some(Step::Done) | Some(Step::Stall) | Some(Step::ServeH1 { .. }) | Some(Step::H2Serve))
     }
     /// every connection of a serving peer, in accept order
     pub fn conns(&self) -> Vec<&Conn> {
@@ -341,6 +433,13 @@ impl Peer {
         }
         progressed |= self.conn.pump_write();
         progressed |= self.conn.pump_read(ctx.now_ns);
+        if let Some(h2) = self.h2.as_mut() {
+            let auto = h2.receive(&self.conn.rx, ctx.now_ns);
+            if !auto.is_empty() {
+                self.conn.tx.extend_from_slice(&auto);
+                progressed |= self.conn.pump_write();
+            }
+        }
         loop {
             let Some(step) = self.script.get(self.pc).cloned() else { break };
             match step {
@@ -414,6 +513,129 @@ impl Peer {
                     } else {
                         break;
                     }
+                }
+                Step::H2Start { settings, policy } => {
+                    let mut ep = super::h2::Endpoint::new(self.listener.is_none(), policy);
+                    let hello = ep.hello(&settings);
+                    self.conn.tx.extend_from_slice(&hello);
+                    // whatever already arrived (a server's SETTINGS) is processed from the start
+                    let auto = ep.receive(&self.conn.rx, ctx.now_ns);
+                    self.conn.tx.extend_from_slice(&auto);
+                    self.h2 = Some(Box::new(ep));
+                    self.conn.pump_write();
+                    self.pc += 1;
+                    progressed = true;
+                }
+                Step::H2Headers { stream, headers, end_stream, continuation_at } => {
+                    if let Some(h2) = self.h2.as_mut() {
+                        let hs: Vec<(&str, &str)> = headers.iter().map(|(n, v)| (n.as_str(), v.as_str())).collect();
+                        let bytes = h2.encode_headers(stream, &hs, end_stream, continuation_at);
+                        self.conn.tx.extend_from_slice(&bytes);
+                        self.conn.pump_write();
+                    }
+                    self.pc += 1;
+                    progressed = true;
+                }
+                Step::H2Data { stream, bytes, end_stream, frame_size, ignore_window } => {
+                    let Some(h2) = self.h2.as_mut() else {
+                        self.pc += 1;
+                        continue;
+                    };
+                    if self.conn.stream.is_none() || self.conn.reset {
+                        self.h2_data_off = 0;
+                        self.pc += 1;
+                        continue;
+                    }
+                    let peer_max = h2.peer(super::h2::S_MAX_FRAME_SIZE, 16384) as usize;
+                    loop {
+                        let left = bytes.len() - self.h2_data_off;
+                        let mut n = left.min(frame_size.max(1));
+                        if !ignore_window {
+                            n = n.min(h2.sendable(stream)).min(peer_max);
+                        }
+                        if n == 0 && left > 0 {
+                            break;
+                        }
+                        let last = self.h2_data_off + n == bytes.len();
+                        self.conn.tx.extend_from_slice(&super::h2::data(stream, &bytes[self.h2_data_off..self.h2_data_off + n], end_stream && last));
+                        h2.consume_send_window(stream, n);
+                        self.h2_data_off += n;
+                        progressed = true;
+                        if last {
+                            break;
+                        }
+                    }
+                    self.conn.pump_write();
+                    if self.h2_data_off == bytes.len() {
+                        self.h2_data_off = 0;
+                        self.pc += 1;
+                    } else {
+                        break;
+                    }
+                }
+                Step::H2Raw(bytes) => {
+                    self.conn.tx.extend_from_slice(&bytes);
+                    self.conn.pump_write();
+                    self.pc += 1;
+                    progressed = true;
+                }
+                Step::H2Grant { stream, inc } => {
+                    if let Some(h2) = self.h2.as_mut() {
+                        if stream == 0 {
+                            h2.conn_recv_window += inc as i64;
+                        } else {
+                            let init = h2.local_settings.get(&super::h2::S_INITIAL_WINDOW_SIZE).copied().unwrap_or(65535) as i64;
+                            *h2.stream_recv_window.entry(stream).or_insert(init) += inc as i64;
+                        }
+                        self.conn.tx.extend_from_slice(&super::h2::window_update(stream, inc));
+                        self.conn.pump_write();
+                    }
+                    self.pc += 1;
+                    progressed = true;
+                }
+                Step::H2Await(cond) => {
+                    let over = self.conn.eof || self.conn.reset || self.conn.stream.is_none();
+                    let ok = self.h2.as_ref().is_none_or(|h| match &cond {
+                        H2Cond::PeerSettings => h.peer_settings_frames > 0,
+                        H2Cond::SettingsAcked => h.our_settings_acked,
+                        H2Cond::Headers(s) => h.streams.get(s).is_some_and(|st| !st.headers.is_empty() || st.rst.is_some()),
+                        H2Cond::BodyAtLeast(s, n) => h.streams.get(s).is_some_and(|st| st.body.len() >= *n || st.done()),
+                        H2Cond::StreamDone(s) => h.streams.get(s).is_some_and(|st| st.done()),
+                        H2Cond::AllDone(v) => v.iter().all(|s| h.streams.get(s).is_some_and(|st| st.done())),
+                        H2Cond::Goaway => h.goaway.is_some(),
+                        H2Cond::PingAcks(n) => h.ping_acks >= *n,
+                    });
+                    if ok || over {
+                        self.pc += 1;
+                    } else {
+                        break;
+                    }
+                }
+                Step::H2Serve => {
+                    // accept every connection; the first one lives in self.conn / self.h2
+                    if let Some(l) = self.listener.as_ref() {
+                        while let Ok((sock, from)) = l.accept() {
+                            let mut ep = super::h2::Endpoint::new(false, super::h2::WindowPolicy::Eager);
+                            let hello = ep.hello(&[(super::h2::S_MAX_CONCURRENT_STREAMS, 100)]);
+                            let mut conn = Conn::new(sock);
+                            conn.tx.extend_from_slice(&hello);
+                            if self.h2.is_none() {
+                                self.conn = conn;
+                                self.accepted_from = Some(from);
+                                self.h2 = Some(Box::new(ep));
+                            } else {
+                                self.h2_more.push(H2ServerConn { conn, h2: Box::new(ep), answered: Default::default(), pending: vec![] });
+                            }
+                            progressed = true;
+                        }
+                    }
+                    if let Some(h2) = self.h2.as_mut() {
+                        progressed |= h2_serve(&mut self.conn, h2, &mut self.h2_answered, &mut self.h2_pending, ctx.now_ns);
+                    }
+                    for c in self.h2_more.iter_mut() {
+                        progressed |= h2_serve(&mut c.conn, &mut c.h2, &mut c.answered, &mut c.pending, ctx.now_ns);
+                    }
+                    break;
                 }
                 Step::StartTls { sni, alpn } => {
                     let a: Vec<&str> = alpn.iter().map(|s| s.as_str()).collect();
@@ -493,9 +715,12 @@ impl Peer {
                         progressed |= c.pump_read(now);
                         let (msgs, _, _) = super::h1::parse_all(&c.rx, false, c.eof || c.reset);
                         while served[ci] < msgs.len() {
+                            // `/size/<n>` asks for an n-byte coded body
+                            let sized = msgs[served[ci]].target().strip_prefix("/size/").and_then(|n| n.parse::<usize>().ok()).map(|n| super::h1::coded_body((n % 251) as u8, n));
+                            let body: &[u8] = sized.as_deref().unwrap_or(&body);
                             let mut r = format!("{response_head}\r\nX-Seq: {ci}.{}\r\nContent-Length: {}\r\n\r\n", served[ci], body.len()).into_bytes();
                             if msgs[served[ci]].method() != "HEAD" {
-                                r.extend_from_slice(&body);
+                                r.extend_from_slice(body);
                             }
                             c.tx.extend_from_slice(&r);
                             served[ci] += 1;
